@@ -9,6 +9,8 @@ import csv
 import decimal
 import io
 import itertools
+import os
+import re
 
 from mc import engine, harness, readermachine
 from mc.core import Part
@@ -45,7 +47,7 @@ def data_text(decl, cells):
     if decl["fmt"] == "fixed":
         usable = [c for c in cells if len(c) <= decl["width"] and "\n" not in c and "\r" not in c]
         return "".join(c.ljust(decl["width"]) + "\n" for c in usable), usable
-    delimiter = ";" if decl["preset"] == "delimited_de" else ","
+    delimiter = ";" if decl["preset"] in ("delimited_de", "delimited_comma") else ","
     stream = io.StringIO()
     writer = csv.writer(stream, delimiter=delimiter, quotechar='"', doublequote=True, lineterminator="\n", quoting=csv.QUOTE_ALL)
     for cell in cells:
@@ -53,17 +55,31 @@ def data_text(decl, cells):
     return stream.getvalue(), list(cells)
 
 
-def observe_via_cid(decl, cells):
+_NUMBER_CELL = re.compile(r"-?(0|[1-9][0-9]*)(\.[0-9]*[1-9])?")
+
+
+def observe_via_cid(decl, cells, props_after_fields=False, numeric_cells=False):
     import cutplace
 
     m = harness.modules()
-    if decl["fmt"] in ("excel", "ods"):
+    if decl["fmt"] == "excel" and numeric_cells:
+        # number cells: every cell whose text is the shortest spelling of an exactly representable number below 2^53 is stored as a number;
+        # the reader delivers that spelling (C16), so the verdict must be the one of the text
+        cid = harness.make_cid(harness.cid_rows(decl["preset"], [decl], allowed=decl.get("allowed")))
+        usable = [c for c in cells if _NUMBER_CELL.fullmatch(c) and abs(float(c)) < 2**53 and repr(float(c)) in (c, c + ".0")]
+        source = os.path.join(readermachine.tmpdir(), "c02numbers_%d.xlsx" % os.getpid())
+        workbook = harness.new_workbook(source)
+        worksheet = workbook.add_worksheet()
+        for index, cell in enumerate(usable):
+            worksheet.write_number(index, 0, float(cell))
+        workbook.close()
+    elif decl["fmt"] in ("excel", "ods"):
         # the cells as text cells of a one-column sheet, read through the container reader
         cid = harness.make_cid(harness.cid_rows(decl["preset"], [decl], allowed=decl.get("allowed")))
         usable = [c for c in cells if c != "" and all(ch in "\t\n" or (ch >= " " and not 0xD800 <= ord(ch) <= 0xDFFF and ch not in "\ufffe\uffff") for ch in c) and "\r" not in c]
         source, _ = readermachine.store({"preset": decl["preset"], "odf": {"span_range": [1, 4]}}, [decl], [[c] for c in usable], name="c02cells")
     else:
-        rows = harness.cid_rows(decl["preset"], [decl], allowed=decl.get("allowed"), line_delimiter="lf")
+        rows = harness.cid_rows(decl["preset"], [decl], allowed=decl.get("allowed"), line_delimiter="lf", props_after_fields=props_after_fields)
         cid = harness.make_cid(rows)
         text, usable = data_text(decl, cells)
         source = harness.NamedStringIO(text)
@@ -171,6 +187,32 @@ def judge(case, part):
             part.validated += 1
             if direct[cell] in ("accept", "reject") and verdict != direct[cell]:
                 part.fail(tag % "cid-path-disagrees-with-direct-path", {"decl": case["decl"], "cells": [cell]}, direct[cell], verdict)
+        if decl["fmt"] == "excel" and field_type in ("Integer", "Decimal"):
+            try:
+                usable, verdicts = observe_via_cid(decl, cells, numeric_cells=True)
+            except Exception as error:
+                part.fail(tag % ("number-cells-raised-" + type(error).__name__), case, "rows readable under a CID declaring the field", repr(error))
+                return
+            part.transitions += 1 + len(usable)
+            if len(verdicts) != len(usable):
+                part.fail(tag % "number-cells-row-count", case, len(usable), len(verdicts))
+                return
+            for cell, verdict in zip(usable, verdicts):
+                part.validated += 1
+                if direct[cell] in ("accept", "reject") and verdict != direct[cell]:
+                    part.fail(tag % "number-cell-disagrees-with-its-text", {"decl": case["decl"], "cells": [cell]}, direct[cell], verdict)
+        if decl["fmt"] in ("delimited", "fixed") and harness.PRESETS[decl["preset"]][1] and field_type == "Decimal":
+            # the separator rows declared behind the field row: they are data format properties all the same
+            try:
+                usable, verdicts = observe_via_cid(decl, cells, props_after_fields=True)
+            except Exception as error:
+                part.fail(tag % ("cid-path:properties-after-fields-raised-" + type(error).__name__), case, "rows readable under a CID declaring the field", repr(error))
+                return
+            part.transitions += 1 + len(usable)
+            for cell, verdict in zip(usable, verdicts):
+                part.validated += 1
+                if direct[cell] in ("accept", "reject") and verdict != direct[cell]:
+                    part.fail(tag % "cid-path:properties-after-fields-disagrees-with-direct-path", {"decl": case["decl"], "cells": [cell]}, direct[cell], verdict)
 
 
 # ---- enumeration ------------------------------------------------------------------------------
@@ -188,6 +230,9 @@ def integer_rule_cases(tier):
     boundary = [str(v) for v in (-(2**31) - 1, -(2**31), -(2**31) + 1, -1, 0, 1, 2**31 - 2, 2**31 - 1, 2**31, 2**63)] + NON_INTEGER_CELLS
     for preset in ("delimited", "excel", "ods"):
         cases.append({"decl": {"type": "Integer", "preset": preset}, "cells": boundary})
+        # 16-digit numbers (below 2^53: exact as number cells)
+        wide = [str(v) for v in (999999999999999, 10**15 - 1, 10**15, 1234567890123450, 4000000000000001, 8999999999999999, 9 * 10**15, 2**53 - 1, 9007199254740993)]
+        cases.append({"decl": {"type": "Integer", "preset": preset, "rule": {"items": [[10**15, 8999999999999999, False]]}}, "cells": wide})
     return cases
 
 
@@ -228,7 +273,7 @@ def decimal_cases(tier):
     structures = [None] + c01.structures(sorted(DEC_POOL, key=decimal.Decimal), 1)
     if tier == "thorough":
         structures += c01.structures(sorted(DEC_POOL, key=decimal.Decimal), 2)
-    for preset in ("delimited", "delimited_us", "delimited_de", "fixed", "fixed_de", "excel", "ods"):
+    for preset in ("delimited", "delimited_us", "delimited_de", "delimited_comma", "fixed", "fixed_de", "excel", "ods"):
         _, _, dec_sep, thou_sep = harness.PRESETS[preset]
         other_sep = "," if dec_sep == "." else "."
         for structure in structures:
@@ -250,6 +295,13 @@ def decimal_cases(tier):
                                 sign = "-" if text.startswith("-") else ""
                                 integer_digits, _, fraction = text.lstrip("-").partition(".")
                                 cells.append(render_decimal(sign, integer_digits, fraction, False, dec_sep, thou_sep))
+            # numbers of more than 28 significant digits (the default range has limits of 31 digits) and values a hair beside a limit
+            for integer_digits, fraction in (("9999999999999999999", "999999999999"), ("1234567890123456789", "123456789012"), ("1", "00000000000000000000000000001"), ("0", "99999999999999999999999999999"),
+                                             ("0", "00000000012345678901234567890123456789"), ("10000000000000000000", "")):
+                for sign in ("", "-"):
+                    cells.append(render_decimal(sign, integer_digits, fraction, False, dec_sep, thou_sep))
+            if preset == "excel":
+                cells += ["1.000000000000001", "0.1234567890123456", "0.9999999999999999", "1234567890123.25"]  # 16 significant digits: still exact as a number cell
             # single mutations that must be rejected
             cells += ["1" + dec_sep + "5" + dec_sep + "0", "1a", "a", "-", "1" + dec_sep + "5x"]
             if thou_sep:
